@@ -583,11 +583,28 @@ def inc_missing(q, views, mod, l):
     return [m for m in mod if str(m) not in listed and str(m) in {v[0] for v in views}]
 
 
+def run_corpus(ctx):
+    """minimised past failures first (corpus/C25/*.json): the fixed families must stay fixed"""
+    import glob
+    import json
+    import os
+    for f in sorted(glob.glob(os.path.join(env.VERIF, "corpus", "C25", "*.json"))):
+        case = json.load(open(f))
+        r = replay(ctx, case)
+        ctx.case(dict(corpus=os.path.basename(f)), nontrivial=True)
+        ctx.count("corpus")
+        if r.get("model") is not None:
+            ctx.traces += 1
+            if not r["agree"]:
+                ctx.mismatch(case, r["impl"], r["model"], line="corpus:" + os.path.basename(f))
+
+
 def run(ctx, nworlds=None):
     import os
     os.chdir(env.scratch())
-    pure_part(ctx, ctx.pick(2500, 20000))
-    nworlds = nworlds or ctx.pick(48, 320)
+    run_corpus(ctx)
+    pure_part(ctx, ctx.pick(2200, 20000))
+    nworlds = nworlds or ctx.pick(44, 320)
     per = dict(range=ctx.pick(40, 110))
     nmax = ctx.pick(12, 14)
     worlds = [gen_fworld(ctx.rng, nmax) for _ in range(nworlds)]
